@@ -24,6 +24,8 @@
 #include <sys/select.h>
 #include <sys/socket.h>
 #include <sys/stat.h>
+#include <sys/resource.h>
+#include <fcntl.h>
 #include <sys/types.h>
 #include <security/pam_modules.h>
 #include <security/pam_ext.h>
@@ -157,6 +159,13 @@ ssize_t __wrap_send(int fd, const void *buf, size_t n, int flags) {
   return put;
 }
 
+static int count_fds(void) {
+  int n = 0; struct rlimit rl; long lim = 4096;
+  if (getrlimit(RLIMIT_NOFILE, &rl) == 0 && (long)rl.rlim_cur < lim) lim = (long)rl.rlim_cur;
+  for (int fd = 0; fd < lim; fd++) if (fcntl(fd, F_GETFD) != -1) n++;
+  return n;
+}
+
 static char *unhex(const char *h) {
   size_t n = strlen(h) / 2;
   char *b = calloc(n + 1, 1);
@@ -170,9 +179,9 @@ int main(int argc, char **argv) {
   if (!f) return 2;
   char *line = NULL; size_t cap = 0;
   while (getline(&line, &cap, f) > 0) {
-    char *fields[11]; int nf = 0;
+    char *fields[12]; int nf = 0;
     char *p = line; line[strcspn(line, "\n")] = 0;
-    while (nf < 11) { fields[nf++] = p; char *t = strchr(p, '\t'); if (!t) break; *t = 0; p = t + 1; }
+    while (nf < 12) { fields[nf++] = p; char *t = strchr(p, '\t'); if (!t) break; *t = 0; p = t + 1; }
     if (nf < 9) continue;
     wdelay_ms = nf >= 10 ? atol(fields[9]) : 0;
     /* announce the case before running it: a sanitizer abort still leaves the witness */
@@ -198,13 +207,36 @@ int main(int argc, char **argv) {
     if (eintr_mask >= 100) { eintr_storm = (long)eintr_mask - 100; eintr_mask = 0; }
     n_select = n_read = n_write = n_unguarded = n_nonfinite = 0; max_sel_timeout = 0;
     memset(ready_r, 0, sizeof ready_r); memset(ready_w, 0, sizeof ready_w);
+    /* a long-lived application: <prefail> earlier logins while the agent was not reachable (socket path missing) */
+    long prefail = nf >= 12 ? atol(fields[11]) : 0, prefail_ok = 0;
+    int fds_before = count_fds();
+    if (prefail > 0) {
+      struct rlimit rl;
+      if (getrlimit(RLIMIT_NOFILE, &rl) == 0 && rl.rlim_cur < (rlim_t)prefail + 200) {
+        rl.rlim_cur = rl.rlim_max < (rlim_t)prefail + 200 ? rl.rlim_max : (rlim_t)prefail + 200; setrlimit(RLIMIT_NOFILE, &rl);
+      }
+      getrlimit(RLIMIT_NOFILE, &rl);
+      if (rl.rlim_cur < (rlim_t)prefail + 100) prefail = 0; /* cannot model it here */
+      const char *av2[32]; int ac2 = 0;
+      for (int i = 0; i < ac; i++) if (strncmp(av[i], "sock=", 5)) av2[ac2++] = av[i];
+      av2[ac2++] = "sock=/nonexistent-verif/whawty.sock";
+      for (long i = 0; i < prefail; i++) {
+        struct pam_handle p2; memset(&p2, 0, sizeof(p2));
+        p2.user = user; p2.authtok = strdup("pw");
+        if (pam_sm_authenticate(&p2, (int)PAM_SILENT, ac2, av2) == PAM_SUCCESS) prefail_ok++;
+        free(p2.authtok);
+      }
+      n_select = n_read = n_write = n_unguarded = n_nonfinite = 0; max_sel_timeout = 0;
+    }
+    int fds_mid = count_fds();
     struct timespec t0, t1; clock_gettime(CLOCK_MONOTONIC, &t0);
     int flags = strstr(fields[4], "PAM_SILENT") ? (int)PAM_SILENT : 0;
     if (errno0 >= 0) errno = errno0;
     int rc = pam_sm_authenticate(&ph, flags, ac, av);
     clock_gettime(CLOCK_MONOTONIC, &t1);
     long ms = (t1.tv_sec - t0.tv_sec) * 1000 + (t1.tv_nsec - t0.tv_nsec) / 1000000;
-    printf("END\t%s\t%d\t%ld\t%ld\t%ld\t%ld\t%ld\t%.0f\t%ld\t%d\t%ld\n", fields[0], rc, n_select, n_read, n_write, n_unguarded, n_nonfinite, max_sel_timeout, ms, ph.authtok_set, n_overwait);
+    int fds_after = count_fds();
+    printf("END\t%s\t%d\t%ld\t%ld\t%ld\t%ld\t%ld\t%.0f\t%ld\t%d\t%ld\t%ld\t%ld\t%d\t%d\n", fields[0], rc, n_select, n_read, n_write, n_unguarded, n_nonfinite, max_sel_timeout, ms, ph.authtok_set, n_overwait, prefail, prefail_ok, fds_mid - fds_before, fds_after - fds_mid);
     fflush(stdout);
     free(user); free(pw); free(opts); free(ph.authtok);
   }
